@@ -162,6 +162,21 @@ func checkC01(e *Env, r *Report) {
 			pickedNormal = true
 		}
 	}
+	if e.Tier == "thorough" {
+		// every configuration gets the -d pass on every file; the full compile of every file (measured:
+		// ~40 s of 16 cores per configuration) goes to one configuration per (distribution, ABI,
+		// full) triple - version and mode rotate with the triple and the seed - 20 of the 180
+		f.fullCompileCfg = map[string]bool{}
+		k := int(e.Seed)
+		for _, d := range Dists {
+			for _, abi := range []int{3, 4} {
+				for _, full := range []bool{false, true} {
+					f.fullCompileCfg[Cfg{d, abi, Vers[k%len(Vers)], Modes[(k/len(Vers))%len(Modes)], full}.Key()] = true
+					k++
+				}
+			}
+		}
+	}
 	f.hosts = map[string]bool{}
 	for _, pf := range profileFiles(f.aug) {
 		t, _ := os.ReadFile(filepath.Join(f.aug, "apparmor.d", pf))
@@ -282,7 +297,7 @@ func checkC01(e *Env, r *Report) {
 	}
 	r.Assume = append(r.Assume, "apparmor_parser 3.0.8 stands in for the target parser: abi <abi/4.0> is read as 3.0 and userns/mqueue/io_uring/all rules are set aside, as C01 allows",
 		"version 4.1 builds are overlaid with the repository's own copies of the four include files 'upstreamed in 4.1'",
-		"quick tier: syntax/semantic check with -Q -K -d; thorough tier: full compile with --kernel-features abi/3.0")
+		"every file of every configuration: syntax/semantic check with -Q -K -d; full compile with --kernel-features abi/3.0 for generated files and directive hosts everywhere, and for every file in 2 (quick) / 20 (thorough: one per distribution x ABI x full) configurations")
 	// keep the trace small: only failures and a sample of successes go to TLC individually,
 	// successes are summarised per configuration
 	sort.SliceStable(recs, func(i, j int) bool { return false })
@@ -296,9 +311,6 @@ var reComplainFlag = regexp.MustCompile(`,?complain,?`)
 // configurations (one of them --full), and in all configurations the files the directive
 // stage pastes rules into (stack / exec hosts) plus the generated files.
 func compileFully(e *Env, f *famBuilders, c Cfg, file string, idx int) bool {
-	if e.Tier == "thorough" {
-		return true
-	}
 	if strings.Contains(file, "vgen-") || f.hosts[strings.TrimSuffix(file, ".apparmor.d")] {
 		return true
 	}
